@@ -528,3 +528,50 @@ pub fn vp8_intra_predict_chroma(
 }
 /// Recording of the parsing side of the real `decode_frame_` (`vp8::verif_parse::record_*`).
 pub use crate::vp8::verif_parse::{decode_frame_traced, trace_start, trace_take, FrameTrace, MbTrace};
+
+/// Reconstruction half of `Vp8Decoder::decode_frame_` (`vp8::verif_recon`): recorder fed by the real decoder,
+/// `Vp8Decoder::loop_filter`, the filter pass, `crop_plane` and the edge functions of loop_filter.rs on given data.
+pub use crate::vp8::verif_recon::{ReconHeader, ReconMb, Recording};
+
+/// Decode a `VP8 ` payload with the real `Vp8Decoder::decode_frame` while recording the reconstruction inputs
+/// (header fields, per-macroblock `MacroBlock` + residuals) and the intermediate planes.
+pub fn vp8_decode_frame_recorded(payload: &[u8]) -> (Result<crate::vp8::Frame, crate::DecodingError>, Recording) {
+    crate::vp8::verif_recon::start();
+    let r = crate::vp8::Vp8Decoder::decode_frame(std::io::Cursor::new(payload.to_vec()));
+    let rec = crate::vp8::verif_recon::take().unwrap_or_default();
+    (r, rec)
+}
+
+/// Drop a recording left behind by a decode that panicked.
+pub fn vp8_recording_reset() {
+    let _ = crate::vp8::verif_recon::take();
+}
+
+/// One call of `Vp8Decoder::loop_filter` on the given macroblock-aligned planes: (ybuf, ubuf, vbuf) afterwards.
+pub fn vp8_loop_filter_mb(
+    h: &ReconHeader,
+    mbx: usize,
+    mby: usize,
+    mb: &ReconMb,
+    ybuf: Vec<u8>,
+    ubuf: Vec<u8>,
+    vbuf: Vec<u8>,
+) -> (Vec<u8>, Vec<u8>, Vec<u8>) {
+    crate::vp8::verif_recon::loop_filter_mb(h, mbx, mby, mb, ybuf, ubuf, vbuf)
+}
+
+/// The loop-filter pass of `decode_frame_` on the given planes and macroblocks.
+pub fn vp8_filter_pass(h: &ReconHeader, mbs: &[ReconMb], ybuf: Vec<u8>, ubuf: Vec<u8>, vbuf: Vec<u8>) -> (Vec<u8>, Vec<u8>, Vec<u8>) {
+    crate::vp8::verif_recon::filter_pass(h, mbs, ybuf, ubuf, vbuf)
+}
+
+/// `vp8::crop_plane`
+pub fn vp8_crop_plane(plane: Vec<u8>, stride: usize, width: usize, height: usize) -> Vec<u8> {
+    crate::vp8::verif_recon::crop(plane, stride, width, height)
+}
+
+/// `loop_filter::{simple_segment, subblock_filter, macroblock_filter}` (`which` = 0, 1, 2) at one position.
+#[allow(clippy::too_many_arguments)]
+pub fn vp8_lf_edge(which: u8, hev_threshold: u8, interior_limit: u8, edge_limit: u8, pixels: Vec<u8>, point: usize, stride: usize) -> Vec<u8> {
+    crate::vp8::verif_recon::edge(which, hev_threshold, interior_limit, edge_limit, pixels, point, stride)
+}
